@@ -2,7 +2,7 @@
    (facts format: harness/src/bin/c15.rs).  output:
    <model's serialisation, UTF-8 | P;;>\t<1|0: the model's parser accepts the real view and re-serialises it to the
    same code points>\t<model confidence bits of the bit flips, joined by ,>\t<1|0: wf_ok st>\t<1|0: real_conforms
-   on the code points of the real view> *)
+   on the code points of the real view>\t<1|0: real_widths width view> *)
 let utf8_encode (b : Buffer.t) (c : int) =
   if c < 0x80 then Buffer.add_char b (Char.chr c)
   else if c < 0x800 then (Buffer.add_char b (Char.chr (0xC0 lor (c lsr 6))); Buffer.add_char b (Char.chr (0x80 lor (c land 0x3F))))
@@ -203,6 +203,8 @@ let () =
         Buffer.add_string b (if wf_ok st then "1" else "0");
         Buffer.add_char b '\t';
         Buffer.add_string b (if real_conforms real_cps then "1" else "0");
+        Buffer.add_char b '\t';
+        Buffer.add_string b (if real_widths w real_cps then "1" else "0");
         print_endline (Buffer.contents b)
       end
     done
